@@ -72,6 +72,7 @@ public:
 
   template <typename T>
   CommandSignature& combine(const std::vector<T>& list) {
+    combine(list.size());
     for (const auto& v: list) {
       combine(v);
     }
